@@ -153,13 +153,27 @@ def graphs_of(case, lines):
         cn = {n: list(t) for n, t in g.cnodes.items()}
         ld = []
         pruned = []
+        groups = []
         if len(g) > 0:
+            # parallel-edge groups before prune (list order), keyed by the pair of gnodes
+            gmap = {}
+            for gnode in g.values():
+                for e in gnode.fedges:
+                    key = (_gname(e.from_gnode), _gname(e.to_gnode))
+                    gmap.setdefault(key, {'edges': [], 'fwd': [], 'rev': []})['edges'].append([frs(e.size), bool(e.stretch)])
             g.prune()
             for gnode in g.values():
                 for e in gnode.fedges:
                     fr, to = e.from_gnode.name, e.to_gnode.name
                     pruned.append([list(fr) if isinstance(fr, tuple) else [fr],
                                    list(to) if isinstance(to, tuple) else [to], frs(e.size)])
+                    gmap.setdefault((_gname(e.from_gnode), _gname(e.to_gnode)), {'edges': [], 'fwd': [], 'rev': []})['fwd'].append(
+                        [frs(e.size), bool(e.stretch)])
+                for e in gnode.redges:
+                    # a reverse edge is stored at its head gnode and points back to the tail
+                    gmap.setdefault((_gname(e.to_gnode), _gname(e.from_gnode)), {'edges': [], 'fwd': [], 'rev': []})['rev'].append(
+                        [frs(e.size), bool(e.stretch)])
+            groups = [[k[0], k[1], v['edges'], v['fwd'], v['rev']] for k, v in gmap.items()]
             g.add_start_nodes()
             g.longest_path(g['start'], g['end'])
             for gnode in g.values():
@@ -167,7 +181,7 @@ def graphs_of(case, lines):
                 d = gnode.dist
                 ld.append([list(nm) if isinstance(nm, tuple) else [nm],
                            None if (d is None or d < 0) else frs(d)])
-        out[ax] = {'edges': edges, 'cnodes': cn, 'ldist': ld, 'pruned': pruned}
+        out[ax] = {'edges': edges, 'cnodes': cn, 'ldist': ld, 'pruned': pruned, 'groups': groups}
     raw_solve(sch, method, out)
     return out
 
